@@ -422,4 +422,14 @@ MUTANTS = [
     M("B4-2-wrong-variant", ["C05"], (TK, "                RankPair::Suited(high, kicker) => expand_rank_range(\n                    RankRange::inclusive(kicker, end),\n                    |r| RankPair::Suited(high, r),", "                RankPair::Suited(high, kicker) => expand_rank_range(\n                    RankRange::inclusive(kicker, end),\n                    |r| RankPair::Ofsuit(high, r),"), base="B4-2"),
     M("B4-2-wrong-range", ["C05"], (TK, "                RankPair::Pocket(rank) => expand_rank_range(\n                    RankRange::inclusive(Rank::Ace, rank),", "                RankPair::Pocket(rank) => expand_rank_range(\n                    RankRange::inclusive(Rank::King, rank),"), base="B4-2"),
     M("B4-2-swapped-ops", ["C05"], (TK, "                    |r| RankPair::Ofsuit(high, r),\n                    probability,\n                ),\n            },\n            HandRangeTokenKind::DoubleClosedRankPairRange", "                    |r| RankPair::Ofsuit(r, high),\n                    probability,\n                ),\n            },\n            HandRangeTokenKind::DoubleClosedRankPairRange"), base="B4-2"),
+    M("benign-D3-3-expansion-loops", ["C05", "C08", "C09", "C10"], base="D3-3", benign=True),
+    M("D3-3-loop-wrong-start", ["C05"], (TK, "                    for r in RankRange::inclusive(Rank::Ace, rank) {", "                    for r in RankRange::inclusive(Rank::King, rank) {"), base="D3-3"),
+    M("D3-3-loop-exclusive", ["C05"], (TK, "                    for r in RankRange::inclusive(Rank::Ace, rank) {", "                    for r in RankRange::new(Rank::Ace, rank) {"), base="D3-3"),
+    M("D3-3-loop-weight", ["C05"], (TK, "                            pairs.push((cp, self.probability));\n                        }\n                    }", "                            pairs.push((cp, 1.0));\n                        }\n                    }"), base="D3-3"),
+    M("D3-3-single-skip", ["C05"], (TK, "                for cp in rank_pair {\n                    pairs.push((cp, self.probability));", "                for cp in rank_pair.into_iter().skip(1) {\n                    pairs.push((cp, self.probability));"), base="D3-3"),
+    M("benign-D3-2-combinator-chain", ["C05", "C06", "C09", "C10", "C17"], base="D3-2", benign=True),
+    M("D3-2-filter-eq", ["C10"], (TK, "            .filter(|card_pair| card_pair[0] != card_pair[1])", "            .filter(|card_pair| card_pair[0] == card_pair[1])"), base="D3-2"),
+    M("D3-2-filter-dropped", ["C10"], (TK, "            .filter(|card_pair| card_pair[0] != card_pair[1])\n", ""), base="D3-2"),
+    M("D3-2-weight-offset", ["C05"], (TK, "                    parse_probability(&s[4..]),\n                )\n            })\n            .ok_or(())", "                    parse_probability(&s[5..]),\n                )\n            })\n            .ok_or(())"), base="D3-2"),
+    M("D3-2-guard-dropped", ["C09"], (TK, "        if !single_card_pair_regex.is_match(s) {\n            return Err(());\n        }\n", ""), base="D3-2"),
 ]
